@@ -134,7 +134,7 @@ def main():
         "setup_cmd": "bin/check build",
         "hooks": {
             "guard": "verif",
-            "enable": "go test -c -tags verif ./props in /verif/sim; the module's replace directive points at /verif/.build/inst, a scratch copy of /repo's current working tree remade by every build, into which sim/autoyield additionally inserts park points before lock/atomic statements (that instrumentation is never written to /repo); the committed hooks are no-op functions without the tag",
+            "enable": "go test -c -tags verif ./props in /verif/sim; the module's replace directive points at /verif/.build/inst, a scratch copy of /repo's current working tree remade by every build, into which sim/autoyield additionally inserts park points before lock/atomic/go/channel-send statements (that instrumentation is never written to /repo); the committed hooks are no-op functions without the tag",
             "baseline_off_cmd": "cd /repo && GOFLAGS=-mod=mod go test -json -vet=off -count=1 -timeout 25m ./...",
             "source_commits": [c.split()[0] for c in commits],
             "add_only": True,
